@@ -306,6 +306,10 @@ pub(crate) async fn handle_run<'a>(
     )?;
 
     #[cfg(pnordahl_monorail_verif)]
+    if crate::verif::plan_capture(&commands, &plan) {
+        return Err(MonorailError::from("verif: plan captured, nothing executed"));
+    }
+    #[cfg(pnordahl_monorail_verif)]
     crate::verif::point("run.exec.begin");
     let run_output = run_internal(
         cfg,
